@@ -246,7 +246,7 @@ func (g *gen) nestedWallet(ds *defSpec) *wallet {
 		w.class = "empty"
 		return w
 	}
-	pFull := []float64{1, 0.85, 0.6, 0.35}[g.weighted(3, 4, 3, 2)]
+	pFull := []float64{1, 0.85, 0.6, 0.35}[g.weighted(5, 4, 2, 1)]
 	byGroup := map[string][]*descSpec{}
 	var order []string
 	for _, d := range ds.descs {
